@@ -867,10 +867,11 @@ type vfC17Opened struct {
 	PktLen    int    // bytes of the datagram that belong to the Initial
 	Plain     []byte // decrypted frames
 	Frames    []vfC17CryptoFrame
-	Other     bool   // frames other than PADDING/PING/CRYPTO seen (parsing stopped there)
-	Crypto    []byte // contiguous CRYPTO data from offset 0
-	Assembled []byte // all CRYPTO frames laid out at their offsets
-	HelloOK   bool   // Crypto holds a complete handshake message of type ClientHello
+	Other     bool     // frames other than PADDING/PING/CRYPTO seen (parsing stopped there)
+	Crypto    []byte   // contiguous CRYPTO data from offset 0
+	Assembled []byte   // all CRYPTO frames laid out at their offsets (holes are zero)
+	Segments  [][]byte // the maximal covered runs of Assembled
+	HelloOK   bool     // Crypto holds a complete handshake message of type ClientHello
 }
 
 // vfC17RefOpen decides whether pkt starts with a client Initial (v1 or v2) that decrypts
@@ -987,8 +988,26 @@ func vfC17RefOpen(pkt []byte) (*vfC17Opened, error) {
 		}
 	}
 	o.Assembled = make([]byte, end)
+	covered := make([]bool, end)
 	for _, f := range o.Frames {
 		copy(o.Assembled[f.Off:], f.Data)
+		for i := f.Off; i < f.Off+len(f.Data); i++ {
+			covered[i] = true
+		}
+	}
+	// maximal runs of CRYPTO stream bytes that really are in the packet; a name that spans a
+	// hole (zero-filled in Assembled) is NOT present in the bytes
+	for i := 0; i < end; {
+		if !covered[i] {
+			i++
+			continue
+		}
+		j := i
+		for j < end && covered[j] {
+			j++
+		}
+		o.Segments = append(o.Segments, o.Assembled[i:j])
+		i = j
 	}
 	if len(o.Crypto) >= 4 && o.Crypto[0] == 1 {
 		hl := int(o.Crypto[1])<<16 | int(o.Crypto[2])<<8 | int(o.Crypto[3])
@@ -1021,6 +1040,28 @@ func vfC17FramePayload(r *rand.Rand, data []byte, cuts []int, order []int, minLe
 		b = append(b, vfC17Varint(uint64(p.off), []int{1, 1, 2, 4}[r.Intn(4)])...)
 		b = append(b, vfC17Varint(uint64(p.end-p.off), []int{1, 2, 2, 4}[r.Intn(4)])...)
 		b = append(b, data[p.off:p.end]...)
+	}
+	if len(b) < minLen {
+		b = append(b, make([]byte, minLen-len(b))...)
+	}
+	return b
+}
+
+// vfC17FramesPayload lays an explicit list of CRYPTO frames (any offsets: overlapping,
+// duplicated, with gaps) out in the given order with PADDING / PING in between.
+func vfC17FramesPayload(r *rand.Rand, frames []vfC17CryptoFrame, minLen int) []byte {
+	var b []byte
+	for _, f := range frames {
+		switch r.Intn(4) {
+		case 0:
+			b = append(b, make([]byte, r.Intn(6))...)
+		case 1:
+			b = append(b, 1)
+		}
+		b = append(b, 6)
+		b = append(b, vfC17Varint(uint64(f.Off), []int{1, 1, 2, 4}[r.Intn(4)])...)
+		b = append(b, vfC17Varint(uint64(len(f.Data)), []int{1, 2, 2, 4}[r.Intn(4)])...)
+		b = append(b, f.Data...)
 	}
 	if len(b) < minLen {
 		b = append(b, make([]byte, minLen-len(b))...)
